@@ -123,6 +123,7 @@ pub fn run_c09(out: &mut Out, rng: &mut Rng, tier: Tier) -> String {
         out.oracle_fail(&format!("zero-sized elements with drop glue: created - dropped = {} after all matrices were dropped, drops beyond creations = {}", z.zst_live, z.zst_overdrops));
     }
     histories(out, rng, n, len);
+    crate::c08::reshape_huge_zst(out);
     let s = snapshot();
     if s.double_drops > 0 || s.live != 0 {
         out.oracle_fail(&format!("ledger at the end of the run: {} tokens still live, {} double drops", s.live, s.double_drops));
